@@ -113,7 +113,7 @@ class C07(object):
     rule = ("one run = (1..50 grains incl. twins/near-duplicates/duplicates, 0..20000 peaks biased to 4096*k and "
             "4096*k+-1, tolerance, seeded grain order, route kernel|fight_over_peaks|assignlabels, team 1..32, strategy, "
             "interleaving); distinct = distinct (workload digest, order, team, schedule signature); non-trivial = at "
-            "least one peak is claimed by >= 2 grains within tolerance or a team >= 2 ran; histories: earlier fights on the same indexer, grains moved between two assignlabels calls, assignment reached through refinepositions, label buffers starting at 0, grain names other than 0..n-1, non-finite peaks, dyadic exact ties, an earlier assignment with one geometry parameter at another value, refine() results kept across calls, per-grain counts / refineubis(scoreonly) / gof() twice after the assignment, g-vectors replaced on the indexer")
+            "least one peak is claimed by >= 2 grains within tolerance or a team >= 2 ran; histories: earlier fights on the same indexer, grains moved between two assignlabels calls, assignment reached through refinepositions, label buffers starting at 0, grain names other than 0..n-1, non-finite peaks, dyadic exact ties, an earlier assignment with one geometry parameter at another value, refine() results kept across calls, per-grain counts / refineubis(scoreonly) / gof() twice after the assignment, g-vectors replaced on the indexer, another refinegrains object that loaded a parameter file first")
     components = {"real": enginea.COMPONENTS_REAL + ["score_and_assign, compute_gv (machine code)",
                                                        "ImageD11.indexing.indexer.fight_over_peaks, "
                                                        "ImageD11.refinegrains.refinegrains.assignlabels (unchanged Python)"],
